@@ -84,6 +84,17 @@ def corpus(v, lvl):
     m9 = 'ADT^A01^ADT_A01' if len(dict(tables.field_rows(v, 'MSH'))[9].children) >= 3 else 'ADT^A01'
     text = 'MSH|^~\\&|A|B|||20200229||%s|1|P|%s\rEVN||20200229\rPID|1||I^^^AA||F^G\rPV1|1|I' % (m9, v)
     text_alt = 'MSH!$?@*!A!B!!!20200229!!%s!1!P!%s\rEVN!!20200229\rPID!1!!I$$$AA!!F$G\rPV1!1!I' % (m9.replace('^', '$'), v)
+    def build_message(e):
+        m = Message('ADT_A01', version=v, validation_level=lvl, encoding_chars=dict(e))
+        m.msh.msh_9 = m9.replace('^', e['COMPONENT'])
+        m.msh.msh_10 = '1'
+        m.msh.msh_11 = 'P'
+        m.evn.evn_2 = '20200229'
+        m.pid.pid_3 = 'I' + e['COMPONENT'] * 3 + 'A' + e['SUBCOMPONENT'] + 'U'
+        m.pid.pid_5.value = 'F' + e['COMPONENT'] + 'G'
+        m.pid.pid_3.cx_1 = 'II'
+        m.add_segment('PV1').pv1_2 = 'I'
+        return m
     c = []
 
     def add(label, fn):
@@ -102,20 +113,25 @@ def corpus(v, lvl):
         add('parse_component-' + tag, lambda e=e, S=S: parse_component('A%sU' % S, name='CX_4' if 'CX' in libs()[v].DATATYPES_STRUCTS else None, datatype=None, version=v, encoding_chars=e, validation_level=lvl).to_er7(e))
         add('parse_subcomponents-' + tag, lambda e=e, S=S: [x.to_er7(e) for x in parse_subcomponents('A%sU' % S, component_datatype='HD', version=v, encoding_chars=e, validation_level=lvl)])
     add('parse_subcomponent', lambda: parse_subcomponent('x', name=None, datatype='ST', version=v, validation_level=lvl).to_er7(ec))
+    # the explicit delimiter argument is the library's own constant, or a dictionary obtained from the library before the
+    # defaults were changed: it is the caller's from then on
+    const = hl7apy.consts.DEFAULT_ENCODING_CHARS_27 if v >= '2.7' else hl7apy.consts.DEFAULT_ENCODING_CHARS
+    held = hl7apy.get_default_encoding_chars(v)
+    for e, tag in ((const, 'libconst'), (held, 'held')):
+        add('parse_segment-' + tag, lambda e=e: (lambda s_: (s_.to_er7(e), deep_ec(s_, e)))(parse_segment('PID|1||I^^^A&U~J||F^G', version=v, encoding_chars=e, validation_level=lvl)))
+        add('Message-' + tag, lambda e=e: (lambda m: (m.to_er7(), m.to_er7(e)))(build_message(e)))
+    # an explicit version that is not supported is refused whatever the default version is
+    for bad in ('2.9', ' ' + v, 'v' + v, ''):
+        add('parse_segment-unsupported-version-%r' % bad, lambda bad=bad: (lambda x: (x.version, x.to_er7(ec)))(parse_segment('PID|1', version=bad, encoding_chars=ec, validation_level=lvl)))
+        add('parse_field-unsupported-version-%r' % bad, lambda bad=bad: (lambda x: (x.version, x.to_er7(ec)))(parse_field('I^J', name='PID_3', version=bad, encoding_chars=ec, validation_level=lvl)))
+        add('parse_component-unsupported-version-%r' % bad, lambda bad=bad: (lambda x: (x.version, x.to_er7(ec)))(parse_component('A&U', datatype='HD', version=bad, encoding_chars=ec, validation_level=lvl)))
+        add('parse_subcomponent-unsupported-version-%r' % bad, lambda bad=bad: (lambda x: (x.version, x.to_er7(ec)))(parse_subcomponent('x', datatype='ST', version=bad, validation_level=lvl)))
+        add('parse_segments-unsupported-version-%r' % bad, lambda bad=bad: [(x.version, x.to_er7(ec)) for x in parse_segments('EVN||2020\rPID|1', version=bad, encoding_chars=ec, validation_level=lvl)])
+        add('parse_fields-unsupported-version-%r' % bad, lambda bad=bad: [(x.version, x.to_er7(ec)) for x in parse_fields('1||I', name_prefix='PID', version=bad, encoding_chars=ec, validation_level=lvl)])
+        add('Segment-unsupported-version-%r' % bad, lambda bad=bad: Segment('PID', version=bad, validation_level=lvl).version)
     add('parse_field-unknown', lambda: parse_field('a^b', version=v, encoding_chars=ec, validation_level=lvl).to_er7(ec))
     add('parse_segment-z', lambda: parse_segment('ZZZ|a|b^c', version=v, encoding_chars=ec, validation_level=lvl).to_er7(ec))
 
-    def build_message(e):
-        m = Message('ADT_A01', version=v, validation_level=lvl, encoding_chars=dict(e))
-        m.msh.msh_9 = m9.replace('^', e['COMPONENT'])
-        m.msh.msh_10 = '1'
-        m.msh.msh_11 = 'P'
-        m.evn.evn_2 = '20200229'
-        m.pid.pid_3 = 'I' + e['COMPONENT'] * 3 + 'A' + e['SUBCOMPONENT'] + 'U'
-        m.pid.pid_5.value = 'F' + e['COMPONENT'] + 'G'
-        m.pid.pid_3.cx_1 = 'II'
-        m.add_segment('PV1').pv1_2 = 'I'
-        return m
     add('Message-std', lambda: (lambda m: (m.to_er7(), m.to_mllp(), deep(m), rep(m)))(build_message(ec)))
     add('Message-alt', lambda: (lambda m: (m.to_er7(), deep(m), rep(m)))(build_message(alt)))
     add('Segment', lambda: (lambda s: (s.to_er7(ec), s.to_er7(alt), s.version, s.validation_level))(Segment('PID', version=v, validation_level=lvl)))
